@@ -381,6 +381,31 @@ Proof.
   exists c2. split; [reflexivity|assumption].
 Qed.
 
+Lemma sq_update_keys : forall c b ty cl ho na da,
+  map fst (sq_map (sql_update_bucket c b ty cl ho na da)) = map fst (sq_map c).
+Proof.
+  intros. rewrite !sq_keys. unfold sql_update_bucket, update_where. cbn. rewrite map_map.
+  apply map_ext. intros r. destruct (br_id r =? b); reflexivity.
+Qed.
+
+Lemma sq_keys_stay : forall c o b0, sq_inv c ->
+  match o with DeleteBucket _ => False | _ => True end ->
+  aget b0 (sq_map c) <> None -> aget b0 (sq_map (fst (sq_step c o))) <> None.
+Proof.
+  intros c o b0 Hi Ho Hb0. destruct (lifecycle_write o) eqn:Hw.
+  - destruct o as [b m|b ty cl ho na da|b| | | | | | | | | | ]; cbn in Hw; try discriminate.
+    + destruct (aget b (sq_map c)) as [[m0 es0]|] eqn:E.
+      * destruct (sq_present_find _ _ _ _ E) as (r0 & Hf & _).
+        cbn [sq_step]. unfold sql_insert_bucket. rewrite (existsb_true_find _ _ _ Hf). exact Hb0.
+      * destruct (sq_create_absent c b m Hi E) as (c' & Hs & Hm & _). rewrite Hs. cbn. rewrite Hm.
+        apply aget_app_stays. assumption.
+    + cbn [sq_step].
+      destruct (negb (not_none ty || not_none cl || not_none ho || not_none na || not_none da));
+        [exact Hb0|]. cbn. eapply keys_same_stays; [apply sq_update_keys|assumption].
+    + destruct Ho.
+  - eapply listing_same_stays; [apply sq_ev_listing; apply sq_event_op_step; assumption|assumption].
+Qed.
+
 Lemma sq_ok : store_ok sqB.
 Proof.
   constructor; cbn [b_state b_init b_step b_view b_map b_inv sqB].
@@ -391,6 +416,7 @@ Proof.
   - intros c. cbn [sq_step]. rewrite sq_listing. reflexivity.
   - apply sq_step_inv.
   - intros c o _ Ho. apply sq_ev_listing. apply sq_event_op_step. assumption.
+  - apply sq_keys_stay.
   - (* create *)
     intros c b m Hi Habs. destruct (sq_create_absent c b m Hi Habs) as (c' & Hs & Hm & _).
     exists c', (OMeta b m), m. split; [assumption|]. split; [|assumption].
